@@ -143,17 +143,17 @@ BATCH_STRESS = [
     {"input": list(range(1, 1300)), "ops": [{"k": "batch", "n": 3}, {"k": "suml"}], "fuse": False},
 ]
 
-SIZES = [0, 1, 2, 3, 4, 5, 8, 15, 16, 17, 63, 64, 65, 159, 160, 161, 223, 224, 225, 226, 300, 448, 449, 700, 1000]
+SIZES = [0, 1, 2, 3, 4, 5, 8, 15, 16, 17, 63, 64, 65, 159, 160, 161, 223, 224, 225, 226, 300, 448, 449, 700]
 
 
 def gen_cases(ctx):
     rng = ctx.rng
-    n = 900 if ctx.thorough else 170
+    n = 900 if ctx.thorough else 130
     cases = [dict(c) for c in CORPUS]
     while len(cases) < n:
         depth = rng.choice([0, 1, 1, 2, 2, 3, 3, 4, 5, 6, 6])
         r = rng.random()
-        size = rng.choice(SIZES[:12]) if r < 0.55 else (rng.choice(SIZES) if r < 0.93 else rng.randint(0, 1200))
+        size = rng.choice(SIZES[:12]) if r < 0.55 else (rng.choice(SIZES) if r < 0.95 else rng.randint(0, 900))
         cases.append(gen_pipeline(rng, depth, size))
     stress = [dict(c, stress=True) for c in BATCH_STRESS]
     out = cases + stress
@@ -213,7 +213,7 @@ STEP_CORPUS = [
 
 def gen_step_cases(ctx):
     rng = ctx.rng
-    n = 1200 if ctx.thorough else 260
+    n = 1200 if ctx.thorough else 240
     cases = [dict(c) for c in STEP_CORPUS]
     while len(cases) < n:
         kind = rng.choice(["flow"] * 5 + ["fused"] * 2 + ["batch"] * 3 + ["sink", "source"])
@@ -398,11 +398,24 @@ def run(ctx):
         p = os.path.join(ctx.work, fn)
         if os.path.exists(p):
             os.remove(p)
-    rc, out = ctx.go_test("stream", "^TestVerifC45", ["zz_verif_C45_test.go"], env={"VERIF_PAR": "6"}, timeout=900 if ctx.thorough else 420)
+    rc, out = ctx.go_test("stream", "^TestVerifC45", ["zz_verif_C45_test.go"], env={"VERIF_PAR": "1"}, timeout=1500 if ctx.thorough else 600)
     res = {r["id"]: r for r in read_jsonl(os.path.join(ctx.work, "c45_out.jsonl"))}
     sres = {r["id"]: r for r in read_jsonl(os.path.join(ctx.work, "c45_steps_out.jsonl"))}
     if rc != 0 or len(res) != len(cases) or len(sres) != len(scases):
         ctx.tie_broken("go-harness stream (build or run failed)", out)
+    # a run that did not terminate within the per-case timeout is repeated alone with a long timeout:
+    # only a stream that still has not terminated is a stall (the machine may simply be busy)
+    slow = [c for c in cases if c["id"] in res and not res[c["id"]]["done"]]
+    if slow and len(slow) <= 12:
+        with open(os.path.join(ctx.work, "c45_in2.jsonl"), "w") as f:
+            for c in slow:
+                f.write(json.dumps({k: c[k] for k in ("id", "input", "ops", "fuse")}) + "\n")
+        rc_, out_ = ctx.go_test("stream", "^TestVerifC45Pipelines", ["zz_verif_C45_test.go"],
+                                env={"VERIF_PAR": "1", "C45_IN": "c45_in2.jsonl", "C45_OUT": "c45_out2.jsonl",
+                                     "VERIF_CASE_TIMEOUT_MS": "45000"}, timeout=900)
+        for r in read_jsonl(os.path.join(ctx.work, "c45_out2.jsonl")):
+            res[r["id"]] = r
+        ctx.coverage["reruns_after_timeout"] = len(slow)
 
     # ---- step runs: oracle, then which batch actor is in the tree
     batch_defect = False
